@@ -114,6 +114,12 @@ func checkC12(c C12Case) *Violation {
 		if !sameOutcome(ref, r) {
 			return vio("input-path:stdin-from-file", "%s: `< file` differs from a pipe\npipe: %s\n< file: %s%s", what, show(ref), show(r), ctx)
 		}
+		if len(c.Input) > 1 && len(c.Input)%3 == 0 {
+			rb := Run{Argv: append([]string{}, c.Argv...), Stdin: c.Input, StdinBursts: true, Files: c.Files}.Exec()
+			if !sameOutcome(ref, rb) {
+				return vio("input-path:slow-pipe", "%s: the same bytes arriving on the pipe in two bursts give a different result\none write: %s\ntwo bursts: %s%s", what, show(ref), show(rb), ctx)
+			}
+		}
 		r = Run{Argv: append(append([]string{}, c.Argv...), "/dev/stdin"), Stdin: c.Input, Files: c.Files}.Exec()
 		if !sameOutcome(ref, r) {
 			return vio("input-path:dev-stdin", "%s /dev/stdin differs from reading standard input\nstdin: %s\n/dev/stdin: %s%s", what, show(ref), show(r), ctx)
@@ -136,6 +142,17 @@ func checkC12(c C12Case) *Violation {
 		r := Run{Argv: append(append([]string{}, c.Argv...), "@piece.txt", "-o", "@piece.txt"), Files: files, OutArg: "piece.txt"}.Exec()
 		if r.Exit != 0 || len(r.Stdout) != 0 || !bytes.Equal(r.OutFile, ref.Stdout) {
 			return vio("output-path:in-place", "%s FILE -o FILE (same file): exit %d, %d bytes on stdout, file holds %d bytes; the plain run prints %d bytes%s", what, r.Exit, len(r.Stdout), len(r.OutFile), len(ref.Stdout), ctx)
+		}
+	}
+	// 3d. -o may name a special file: /dev/stdout must carry the same bytes, /dev/null the same success
+	{
+		r := Run{Argv: append(append([]string{}, c.Argv...), "-o", "/dev/stdout"), Stdin: c.Input, Files: c.Files}.Exec()
+		if !sameOutcome(ref, r) {
+			return vio("output-path:dev-stdout", "%s -o /dev/stdout differs from printing to stdout\nplain: %s\n-o /dev/stdout: %s%s", what, show(ref), show(r), ctx)
+		}
+		r = Run{Argv: append(append([]string{}, c.Argv...), "-o", "/dev/null"), Stdin: c.Input, Files: c.Files}.Exec()
+		if (r.Exit == 0) != (ref.Exit == 0) || len(r.Stdout) != 0 {
+			return vio("output-path:dev-null", "%s -o /dev/null: exit %d (plain run: %d), %d bytes on stdout%s", what, r.Exit, ref.Exit, len(r.Stdout), ctx)
 		}
 	}
 	// 4. -o FILE holds exactly the stdout bytes; stdout stays empty
